@@ -2,7 +2,7 @@
 """C06 - fingerprint_url ignores case, port, language subdomain and optionally suffix (E1 buckets)."""
 import importlib
 from mc import core, grid, nvar
-from mc.ref import refurl, refpsl
+from mc.ref import refurl, refpsl, vocab
 
 PROP = "C06"
 B_HOST = ["a.com", "b.a.co.uk", "télérama.fr", "facebook.com", "youtube.com", "shop.example.org"]
@@ -117,6 +117,10 @@ def judge_flat(w):
         base, var = w["base"], with_port(w["base"], w["port"])
     elif w["kind"] == "lang":
         base, var = w["base"], with_lang(w["base"], w["label"])
+    elif w["kind"] == "suffix-label":
+        # the registrable label is w["label"] (e.g. the excepted label of an exception rule)
+        kw = {"strip_suffix": True}
+        base, var = "http://%s.com/p" % w["label"], "http://%s.%s/p" % (w["label"], w["suffix"])
     else:
         kw = {"strip_suffix": True}
         base, var = "http://zq9.com/p", "http://zq9." + w["suffix"] + "/p"
@@ -161,6 +165,16 @@ def flat_cases(tier):
     rules = list(d.PUBLIC_SUFFIXES) + list(d.PRIVATE_SUFFIXES)
     idx = refpsl.Index(rules)
     for r in rules:
+        if r.startswith("!"):
+            # exception rule !l.p : l.p is registrable, its suffix is p
+            l, p = r[1:].split(".", 1)
+            if not vocab.IRRELEVANT_LABELS_SPEC.match(l):  # '!www.ck': 'www' is itself an irrelevant subdomain
+                out.append({"kind": "suffix-label", "label": l, "suffix": p})
+            continue
+        if r.startswith("*."):
+            # wildcard rule *.p : zq9.wq7.p has suffix wq7.p
+            out.append({"kind": "suffix", "suffix": "wq7." + r[2:]})
+            continue
         if r.startswith(("*", "!")) or r.endswith(".") or not r:
             continue
         hl = ("zq9",) + tuple(r.lower().split("."))
